@@ -141,6 +141,49 @@ impl<KT: DbMapKeyType> FileDbXxxInner<KT> {
 // delete: NEW
 impl<KT: DbMapKeyType> FileDbXxxInner<KT> {}
 
+// link of bucket chain: NEW
+impl<KT: DbMapKeyType> FileDbXxxInner<KT> {
+    /// returns the previous key piece offset of `key_offset` in the bucket chain,
+    /// or zero if `key_offset` is the head. the key piece at `key_offset` is not read.
+    fn find_prev_in_hash_buckets(
+        &mut self,
+        hash: HashValue,
+        key_offset: KeyPieceOffset,
+    ) -> Result<KeyPieceOffset> {
+        let mut prev_key_offset = KeyPieceOffset::new(0);
+        let mut curr_key_offset = self.htx_file.read_key_piece_offset(hash)?;
+        let mut locked_key = self.key_file.0.borrow_mut();
+        while !curr_key_offset.is_zero() && curr_key_offset != key_offset {
+            prev_key_offset = curr_key_offset;
+            curr_key_offset = locked_key.read_piece_only_bucket_next_offset(curr_key_offset)?;
+        }
+        Ok(prev_key_offset)
+    }
+    /// makes the key piece at `prev_key_offset`, or the bucket head if it is zero,
+    /// link to `next_key_offset`. a key piece may move by rewriting its link,
+    /// then the link to it is rewritten, too.
+    fn write_bucket_link(
+        &mut self,
+        hash: HashValue,
+        mut prev_key_offset: KeyPieceOffset,
+        mut next_key_offset: KeyPieceOffset,
+    ) -> Result<()> {
+        while !prev_key_offset.is_zero() {
+            let mut prev_key_piece = self.key_file.read_piece(prev_key_offset)?;
+            prev_key_piece.bucket_next_offset = next_key_offset;
+            let new_prev_key_piece = self.key_file.write_piece(prev_key_piece)?;
+            if new_prev_key_piece.offset == prev_key_offset {
+                return Ok(());
+            }
+            _cold();
+            next_key_offset = new_prev_key_piece.offset;
+            prev_key_offset = self.find_prev_in_hash_buckets(hash, prev_key_offset)?;
+        }
+        self.htx_file
+            .write_key_piece_offset(hash, next_key_offset)
+    }
+}
+
 // find: NEW
 impl<KT: DbMapKeyType> FileDbXxxInner<KT> {
     fn find_in_hash_buckets_kt(
@@ -248,7 +291,9 @@ impl<KT: DbMapKeyType> DbXxxObjectSafe<KT> for FileDbXxxInner<KT> {
         if let Some((key_offset, _prev_key_offset)) = opt {
             let new_key_offset = self.store_value_on_insert(key_offset, value)?;
             if key_offset != new_key_offset {
-                unimplemented!("key_offset != new_key_offset : in put_kt");
+                _cold();
+                // the key piece has moved, changing link of bucket chain.
+                self.write_bucket_link(hash, _prev_key_offset, new_key_offset)?;
             }
         } else {
             _cold();
@@ -274,20 +319,8 @@ impl<KT: DbMapKeyType> DbXxxObjectSafe<KT> for FileDbXxxInner<KT> {
                 .val_file
                 .read_piece_only_value(key_piece.value_offset)?;
             //
-            if _prev_key_offset.is_zero() {
-                self.htx_file
-                    .write_key_piece_offset(hash, key_piece.bucket_next_offset)?;
-            } else {
-                _cold();
-                // changing link of bucket chain.
-                let mut prev_key_piece = self.key_file.read_piece(_prev_key_offset)?;
-                prev_key_piece.bucket_next_offset = key_piece.bucket_next_offset;
-                let new_prev_key = self.key_file.write_piece(prev_key_piece)?;
-                if _prev_key_offset != new_prev_key.offset {
-                    _cold();
-                    panic!("_prev_key_offset != new_prev_key_offset : in del_kt");
-                }
-            }
+            // changing link of bucket chain.
+            self.write_bucket_link(hash, _prev_key_offset, key_piece.bucket_next_offset)?;
             //
             self.val_file.delete_piece(key_piece.value_offset)?;
             self.key_file.delete_piece(key_offset)?;
